@@ -1045,8 +1045,10 @@ func main() {
 			"cache.Get", "cache.BulkGet", "cache.refreshKey", "cache.bulkRefreshKeys", "cache.wrapLoad", "call.cancel", "call.wait"}, nil},
 		// how an entry leaves the cache and how that is reported (Conc.Events)
 		{ot, []string{"cache.atomicSet", "cache.atomicDelete", "cache.deleteNodeFromMap", "cache.afterWrite", "cache.afterDelete", "cache.deleteNode",
-			"cache.evictNode", "cache.runTask", "cache.notifyDeletion", "cache.notifyAtomicDeletion", "cache.makeRetired", "cache.makeDead"},
+			"cache.evictNode", "cache.runTask", "cache.notifyDeletion", "cache.notifyAtomicDeletion", "cache.makeRetired", "cache.makeDead",
+			"cache.set", "cache.Invalidate", "cache.doCompute"},
 			[]string{"notifyDeletion", "notifyAtomicDeletion", "makeRetired", "makeDead", "deleteNodeFromMap", "afterDelete", "afterWriteTask", "getTask", "putTask",
+				"afterWrite", "afterRead", "atomicSet", "atomicDelete", "calcExpiresAtAfterRead",
 				"Compute", "delete", "Delete", "Add", "add", "update", "RecordEviction", "Retire", "Die", "executor", "onDeletion", "onAtomicDeletion"}},
 		// persistence: where the clock is read and what is done per entry (C19)
 		{ot, []string{"LoadCacheFrom", "SaveCacheTo"},
